@@ -3,9 +3,10 @@
 // time.Sleep and duration constants. AofRotateReader.read sleeps 10 ms between polls
 // WHILE HOLDING its mutex; inside a synctest bubble a goroutine that then blocks on
 // that mutex (Close) is not durably blocked, so the virtual clock can never advance
-// and the sleeper never wakes. Sleep therefore becomes "park until the harness's next
-// Tick": one Tick = one poll period elapsed for every parked poller. With no harness
-// attached (Enable(false), the default) Sleep is time.Sleep.
+// and the sleeper never wakes. Sleep therefore becomes "park until the harness wakes
+// me": the harness owns the poll timers. Every parked poller has a ticket (park
+// order); Wake(ticket) lets exactly that poller's period elapse, Tick wakes all.
+// With no harness attached (Reset(false), the default) Sleep is time.Sleep.
 package vpoll
 
 import (
@@ -24,29 +25,34 @@ const (
 	Hour        = time.Hour
 )
 
+type waiter struct {
+	ticket uint64
+	woken  bool
+}
+
 var (
 	mu      sync.Mutex
 	cond    = sync.NewCond(&mu)
 	enabled bool
-	epoch   uint64
-	parked  int
-	polls   int64
+	gen     uint64 // execution generation (Reset)
+	next    uint64
+	parked  []*waiter
 )
 
 // Reset attaches (on=true) or detaches the harness; call it at the start of every
-// execution from inside the bubble (a fresh condition variable is created).
+// execution from inside the bubble (a fresh condition variable is created). Pollers of
+// an abandoned (wedged) bubble stay parked on the old condition variable for ever:
+// waking them from another bubble is a fatal runtime error.
 func Reset(on bool) {
-	// pollers of an abandoned (wedged) bubble stay parked on the old condition
-	// variable for ever: waking them from another bubble is a fatal runtime error.
 	mu.Lock()
 	enabled = on
-	epoch++
-	parked = 0
+	gen++
+	parked = nil
 	cond = sync.NewCond(&mu)
 	mu.Unlock()
 }
 
-// Sleep parks the caller until the next Tick (harness attached) or sleeps (detached).
+// Sleep parks the caller until it is woken (harness attached) or sleeps (detached).
 func Sleep(d Duration) {
 	mu.Lock()
 	if !enabled {
@@ -54,28 +60,66 @@ func Sleep(d Duration) {
 		time.Sleep(d)
 		return
 	}
-	e := epoch
-	c := cond
-	parked++
-	polls++
-	for enabled && epoch == e && c == cond {
+	g, c := gen, cond
+	next++
+	w := &waiter{ticket: next}
+	parked = append(parked, w)
+	for enabled && gen == g && !w.woken {
 		c.Wait()
 	}
-	parked--
 	mu.Unlock()
+}
+
+func remove(w *waiter) {
+	for i, x := range parked {
+		if x == w {
+			parked = append(parked[:i], parked[i+1:]...)
+			return
+		}
+	}
 }
 
 // Tick lets one poll period elapse for every parked poller.
 func Tick() {
 	mu.Lock()
-	epoch++
+	for _, w := range parked {
+		w.woken = true
+	}
+	parked = nil
 	cond.Broadcast()
 	mu.Unlock()
 }
 
-// Parked is the number of pollers currently waiting for a Tick.
+// Tickets lists the parked pollers in park order (oldest first).
+func Tickets() []uint64 {
+	mu.Lock()
+	defer mu.Unlock()
+	out := make([]uint64, len(parked))
+	for i, w := range parked {
+		out[i] = w.ticket
+	}
+	return out
+}
+
+// Wake lets the poll period of one parked poller elapse. It reports whether that
+// poller was still parked.
+func Wake(ticket uint64) bool {
+	mu.Lock()
+	defer mu.Unlock()
+	for _, w := range parked {
+		if w.ticket == ticket {
+			w.woken = true
+			remove(w)
+			cond.Broadcast()
+			return true
+		}
+	}
+	return false
+}
+
+// Parked is the number of pollers currently waiting.
 func Parked() int {
 	mu.Lock()
 	defer mu.Unlock()
-	return parked
+	return len(parked)
 }
